@@ -73,10 +73,10 @@ def _append_table_to_openpyxl_worksheet(
     ws.append([_table_destinations(table)])
 
     if table.metadata.transposed:
-        for col in table:
+        for i, col in enumerate(table):
             ws.append(
                 [str(col.name), str(col.unit)]
-                + list(_represent_col_elements(col.values, col.unit, na_rep)),
+                + list(_represent_col_elements(col.values, col.unit, na_rep, first_column=(i == 0))),
             )
     else:
         ws.append(table.column_names)
